@@ -16,8 +16,13 @@ Reg == [k \in 1..Len(RegIds) |-> [id |-> RegIds[k], origin |-> RegOrigins[k]]]
 
 AllLists == UNION {[1..n -> 1..Len(Pats)] : n \in 0..MaxLen} \cup ExtraLists
 
+\* the input kind that produces the mode: all of them for short lists (end-to-end runs), a representative otherwise
+KindsFor(s, l) == IF Len(l) <= 1 THEN {k \in InputKinds : SastMode(k) = s}
+                  ELSE IF s THEN {"sonarIssues"} ELSE {"none"}
+
 Scenarios ==
-  {[kind |-> k, list |-> l, sast |-> s] : k \in {"inc", "exc"}, l \in AllLists, s \in BOOLEAN}
+  UNION {{[kind |-> k, list |-> l, sast |-> s, inp |-> i] : i \in KindsFor(s, l)} :
+            k \in {"inc", "exc"}, l \in AllLists, s \in BOOLEAN}
 
 PatSeq(l) == [i \in 1..Len(l) |-> Pats[l[i]]]
 
@@ -40,4 +45,5 @@ RefOrdered == (sc.kind = "exc" \/ sc.list = <<>>) =>
 RefEligible == (sc.kind = "exc" \/ sc.list = <<>>) =>
                  \A r \in exp : \A i \in 1..Len(r) : sc.sast <=> (RegOrigins[r[i]] # "pixee")
 RefNonVacuous == exp # {} \/ TLCGet("level") = 1
+RefModeFromInputs == sc.sast = SastMode(sc.inp)
 =============================================================================
